@@ -122,6 +122,21 @@ def run_cell(cell, seed):
         out.append(res(HELD, case, 'M-REF', ratio=ratio) if okc else res(VIOLATED, case, 'M-REF', d, ratio=ratio))
         if kind == 'randn':
             full = {'yl': yl, 'yh': yh, 'tol': tol}
+    # explicit zeros at one level (dense elsewhere) against the reference: exact zeros must not change the path
+    yl, yh = make_pyramid(cell, 'randn', seed + 9, lo, det)
+    zj = rnd.randrange(J)
+    yh = [torch.zeros_like(h) if j == zj else h for j, h in enumerate(yh)]
+    case = {'cell': cell, 'input': 'randn', 'zero_level': zj}
+    ok, y = util.call_lib(inv, (yl, yh))
+    try:
+        ref = refs.dtcwt_inv(util.np64(yl), [c03.to_complex(h) for h in yh], cell['biort'], cell['qshift'])
+        if not ok:
+            out.append(res(VIOLATED, case, 'M-REF', 'library raised %r on a pyramid with an all-zero level' % (y,)))
+        else:
+            okc, d, ratio = util.compare('inverse (one level exactly zero)', y, ref, 1e-11 * G * max(float(yl.abs().max()), 1.0) * 4)
+            out.append(res(HELD, case, 'M-REF', ratio=ratio) if okc else res(VIOLATED, case, 'M-REF', d, ratio=ratio))
+    except Exception as e:
+        out.append(res(INCONCLUSIVE, case, 'M-REF', 'reference raised %r' % (e,)))
     # certificate
     yl, yh = make_pyramid(cell, 'randn', seed + 3, lo, det)
     if util.call_lib(inv, (yl, yh))[0]:
